@@ -123,6 +123,9 @@ def x_tree(ctx, case):
     leaves = []
     root = build(tree, leaves, [], log)
     expected = [[] for _ in leaves]
+    # StreamTagger / TimestampingStreamResult read their field from the keywords; positional calls are
+    # only part of the domain for trees made of CopyStreamResult and leaves
+    positional_ok = not any(k in repr(tree) for k in ("tagger", "stamp"))
     windows = []
     n_status = 0
     detail = lambda: {"tree": tree, "history": history}  # noqa: E731
@@ -145,7 +148,15 @@ def x_tree(ctx, case):
             snap_type = type(caller_tags)
             snap_kw = {k: v for k, v in kw.items() if k != "test_tags"}
             before = datetime.datetime.now(UTC)
-            root.status(**kw)
+            npos = op.get("npos", 0) if positional_ok else 0
+            if npos:
+                f0 = full(kw)
+                f0["test_tags"] = kw.get("test_tags")
+                order = recorders.STREAM_FIELDS
+                args = [f0[k] for k in order[:npos]]
+                root.status(*args, **{k: v for k, v in kw.items() if k not in order[:npos]})
+            else:
+                root.status(**kw)
             after = datetime.datetime.now(UTC)
             windows.append((before, after))
             ok = (kw.get("test_tags") is caller_tags and type(caller_tags) is snap_type
@@ -292,6 +303,10 @@ def random_event(rng):
         e["rc"] = rng.choice([None, "0", "0/1", "1"])
     if rng.random() < 0.3:
         e.update(fn="f", fb=rng.choice(["", "78"]), eof=rng.random() < 0.5, mt=rng.choice([None, "text/plain"]))
+    if rng.random() < 0.25:
+        e["runnable"] = False   # e.g. subtest reports
+    if rng.random() < 0.15:
+        e["npos"] = rng.randint(1, 10)  # leading fields passed positionally (used on pass-through trees)
     return e
 
 
